@@ -347,6 +347,38 @@ def public_api():
     return sorted(names)
 
 
+def resolution_probe():
+    """(extension round 2) who answers `state.<name>`: for one small state of every kind and every public method name of the two RBM
+    classes, every public name the state class defines and one unknown name -> [kind, name, defined by the state itself?, outcome] with
+    outcome in own / forwarded (a bound method of `rbm_am`) / forwarded-elsewhere / attributeError; plus, per kind, whether
+    compute_normalization(space), normalization(space) and the forwarded partition(space) return bit-identical values"""
+    import inspect
+    import torch.nn as nn
+    from qucumber.rbm import BinaryRBM, PurificationRBM
+    module_members = {n for n, _ in inspect.getmembers(nn.Module)}
+    rbm_names = sorted({n for cls in (BinaryRBM, PurificationRBM) for n, mem in inspect.getmembers(cls)
+                        if not n.startswith("_") and callable(mem) and n not in module_members})
+    rows, alias = [], []
+    for kind, cls in zip(("pos", "cplx", "dens"), STATE_CLASSES):
+        st = cls(2, 2, 2, gpu=False) if kind == "dens" else cls(2, 2, gpu=False)
+        own_names = sorted(n for n, _ in inspect.getmembers(cls) if not n.startswith("_"))
+        for name in rbm_names + own_names + ["no_such_attribute"]:
+            own = name in vars(st) or any(name in vars(c) for c in type(st).__mro__)
+            try:
+                v = getattr(st, name)
+            except AttributeError:
+                rows.append([kind, name, own, "attributeError"])
+                continue
+            if own:
+                rows.append([kind, name, own, "own"])
+            else:
+                rows.append([kind, name, own, "forwarded" if getattr(v, "__self__", None) is st.rbm_am else "forwarded-elsewhere"])
+        sp = st.generate_hilbert_space()
+        a, b, c = st.compute_normalization(sp), st.normalization(sp), st.partition(sp)
+        alias.append([kind, bool(torch.equal(a, b) and torch.equal(b, c))])
+    return {"rows": rows, "alias": alias}
+
+
 def tens(rows):
     return torch.tensor(rows, dtype=torch.double)
 
@@ -660,7 +692,7 @@ def _main(req):
         records.append(rec)
     sys.stdout.write("C14RESULT " + json.dumps({"records": records, "final_params": [param_hash(s) for s in states],
                                                 "env": [req.get("env"), str(torch.get_default_dtype()), bool(torch.is_grad_enabled()), os.getcwd() != START_CWD],
-                                                "repo": qc.REPO, "module": os.path.dirname(qucumber.__file__), "api": public_api(),
+                                                "repo": qc.REPO, "module": os.path.dirname(qucumber.__file__), "api": public_api(), "fwd": resolution_probe(),
                                                 "src": [src_start, source_fingerprint()]}) + "\n")
 
 
